@@ -369,3 +369,60 @@ theorem decompress_capacity_iff (t : Table) (h : WellFormed t) (input : List UIn
     | diverge => intro _ hd; exact (hd rfl).elim
 
 end Tw.Huffman
+
+namespace Tw.Huffman
+
+/-! ### the `Vec` API: `decompress_into_vec (compress_into_vec xs) = xs` -/
+
+theorem flatMap_codeBits_length_ge (t : Table) (h : WellFormed t) (ss : List Nat)
+    (hs : ∀ s ∈ ss, s < NUM_SYMBOLS) : ss.length ≤ (ss.flatMap (codeBits t)).length := by
+  induction ss with
+  | nil => simp
+  | cons s ss ih =>
+    have h1 := (h.leaf (hs s (by simp))).1
+    have h2 := ih (fun s' hs' => hs s' (by simp [hs']))
+    simp only [List.flatMap_cons, List.length_append, List.length_cons, codeBits_length]
+    omega
+
+theorem length_le_compress (t : Table) (h : WellFormed t) (bug : Bool) (xs : List UInt8) :
+    xs.length ≤ 8 * (compress t bug xs).length := by
+  have hs : ∀ s ∈ xs.map (·.toNat) ++ [EOF], s < NUM_SYMBOLS := by
+    intro s hs
+    simp only [List.mem_append, List.mem_map, List.mem_singleton] at hs
+    rcases hs with ⟨x, _, rfl⟩ | rfl
+    · have := x.toNat_lt; simp [NUM_SYMBOLS]; omega
+    · decide
+  have h1 := flatMap_codeBits_length_ge t h _ hs
+  simp only [List.length_append, List.length_map, List.length_cons, List.length_nil] at h1
+  have h2 : (packBits (streamBits t xs)).length ≤ (compress t bug xs).length := by
+    simp [compress]
+  rw [packBits_length] at h2
+  have h3 : (streamBits t xs).length
+      = ((xs.map (·.toNat) ++ [EOF]).flatMap (codeBits t)).length := rfl
+  omega
+
+theorem decompressVec_compress (t : Table) (h : WellFormed t) (bug : Bool) (xs : List UInt8) :
+    decompressVec t (compress t bug xs) = some xs := by
+  simp only [decompressVec]
+  rw [decompress_compress t h bug xs _ (length_le_compress t h bug xs)]
+
+theorem decompressVec_none_iff (t : Table) (h : WellFormed t) (input : List UInt8) :
+    decompressVec t input = none ↔ decompress t input (8 * input.length) = .capacity := by
+  have hterm := decompress_terminates t h input (8 * input.length)
+  simp only [decompressVec]
+  revert hterm
+  generalize decompress t input (8 * input.length) = r
+  cases r <;> simp
+
+theorem compress_bug_eq (t : Table) (xs : List UInt8) :
+    compress t true xs =
+      compress t false xs ++ (if (compress t false xs).length * 8 = compressedBitLen t xs then [0] else []) := by
+  have hl : (compress t false xs).length = (compressedBitLen t xs + 7) / 8 := compress_length_false t xs
+  simp only [compress, Bool.false_eq_true, false_and, if_false, List.append_nil, true_and] at hl ⊢
+  rw [hl, streamBits_length]
+  congr 1
+  by_cases h0 : compressedBitLen t xs % 8 = 0
+  · rw [if_pos h0, if_pos (by omega)]
+  · rw [if_neg h0, if_neg (by omega)]
+
+end Tw.Huffman
